@@ -336,6 +336,36 @@ pub fn strategy() -> impl Strategy<Value = PairCase>
         }),
         1 => (plain_rule(), plain_rule(), any::<bool>(), any::<u64>()).prop_map(|(a, b, via_parser, shuffle)|
             PairCase { a, b, how: "independent".to_string(), via_parser, shuffle }),
+        // a string moves across a section boundary and the character that could pass for the boundary moves with it:
+        // {.., zz} / [w+d, ..]  versus  {.., zz+d, w} / [..]  (sources|command and targets|sources).  Whatever the
+        // identity is computed from, it must keep the two apart: the source sets differ.
+        1 => (proptest::collection::btree_set("[a-d]{1,3}", 1..=3), proptest::collection::btree_set("[a-d]{1,3}", 0..=3),
+              proptest::collection::vec(cmdline(), 1..=3), "zzz[a-d]{0,2}", 0usize..5, any::<bool>(), any::<bool>(), any::<u64>())
+            .prop_map(|(t, s, c, w, d, at_targets, via_parser, shuffle)|
+        {
+            let d = [":", ";", " ", "::", ":;"][d];
+            let t: Vec<String> = t.into_iter().collect();
+            let s: Vec<String> = s.into_iter().collect();
+            let (a, b) = if at_targets
+            {
+                // targets | sources; every other source sorts after w+d
+                let tail: Vec<String> = s.iter().map(|x| format!("zzzz{}", x)).collect();
+                let w = "zzz".to_string();
+                let mut ta = t.clone(); ta.push("zz".to_string());
+                let mut sa = vec![format!("{}{}", w, d)]; sa.extend(tail.iter().cloned());
+                let mut tb = t.clone(); tb.push(format!("zz{}", d)); tb.push(w.clone());
+                let mut sb = tail.clone(); if sb.is_empty() { sb.push("zzzzq".to_string()); sa.push("zzzzq".to_string()); }
+                (PlainRule { targets: ta, sources: sa, command: c.clone() }, PlainRule { targets: tb, sources: sb, command: c.clone() })
+            }
+            else
+            {
+                let mut sa = s.clone(); sa.push("zz".to_string());
+                let mut ca = vec![format!("{}{}", w, d)]; ca.extend(c.iter().cloned());
+                let mut sb = s.clone(); sb.push(format!("zz{}", d)); sb.push(w.clone());
+                (PlainRule { targets: t.clone(), sources: sa, command: ca }, PlainRule { targets: t.clone(), sources: sb, command: c.clone() })
+            };
+            PairCase { a, b, how: "separator shifted across a section boundary".to_string(), via_parser, shuffle }
+        }),
     ]
 }
 
